@@ -241,7 +241,7 @@ class Run:
             for v in self.violations:
                 groups.setdefault((v["symptom"], tuple(v["features"])), []).append(v)
             for k, vs in sorted(groups.items()):
-                print("GROUP", k, len(vs), "|", str(vs[0]["detail"])[:300].replace("\n", " / "))
+                print("GROUP", k, len(vs), "|", str(vs[0]["detail"])[:int(os.environ.get("VERIF_DEBUG_WIDTH", "260"))].replace("\n", " / "))
         if self.violations:
             rdir = os.path.join(os.environ.get("VERIF_EVIDENCE_DIR") or os.path.join(VERIF, "replays"), self.prop)
             os.makedirs(rdir, exist_ok=True)
